@@ -260,6 +260,56 @@ SELFRIDGE_D_CASES = {5: [9343011604681400473, 6109266425478011647], -7: [1362002
                      29: [7147053013668183001, 13892592856209732505], -31: [8738455344246012961, 10005443827795974541]}
 
 
+# Chernick Carmichael numbers (6k+1)(12k+1)(18k+1) — permanent (the seeded search adds more)
+CHERNICK_FIXED = [1729, 294409, 56052361, 118901521, 172947529, 216821881, 1307351018993397769, 1307898589087370881,
+                  18178322015949081769, 18230155044646434121, 18265521244069461529, 18308657203978189969, 18326840011945274449,
+                  18349357898532971521]
+# Products of primes > 541 for which the FIRST divisor returned by find_pollard_rho_factor is COMPOSITE (found by emulating the
+# library's rho in Python; the class of seeded mutants C12-1 .. C12-5), with 3, 4 and 5 prime factors, and numbers for which the
+# divisor of that divisor is composite again (the refinement loop must iterate at least twice).
+FIRST_RHO_COMPOSITE = [208489597, 212301107, 214588013, 216874919, 217524943, 217637221, 714139277, 720410533, 723795977, 728249603,
+                       734520859, 741352219, 139839906181, 160431711227, 178488058337, 180433162363, 182115107501, 183710750261,
+                       183767470879, 184096314151, 103755698477471, 126073634279009, 129954945504847, 139059135794963,
+                       139761675637723, 141548885783351, 145987226045723, 147278370484411]
+RHO_COMPOSITE_TWICE = [1522159653893243, 585783760753141, 790895071331999, 1352684244701837, 1367637728271301, 246288631938224413,
+                       565307917090778047, 587747506848853859, 2259637553542113449]
+# p^k * q with p > 541 (p^2, p^3, p^4 times a small, a medium and the largest possible prime q)
+PRIME_POWER_TIMES_Q = [168454667, 174670187, 573179603, 19609858651, 20333409211, 66724010659, 92144702849, 97291294159, 299209897627,
+                       310249930747, 578338219427, 1018084054243, 2418140381747, 10726592682097, 11325708930527, 50403152458403,
+                       54191250846563, 67324526754931, 163667814001969, 172809211426079, 281496452005891, 583543263401843,
+                       1027246810731187, 4295111254295107, 5867446197107059, 6308419874303539, 67930447495725379, 89526294259077043,
+                       96254730764326003, 158477666198553139, 1036492032027767683, 18446707410961652983, 18446743466343431633,
+                       18446743678769110631, 18446743944856862693, 18446744046582004039, 18446744070482622361, 18446744070588681893,
+                       18446744073683320259, 18446744073696266567, 18446744073706109471]
+
+
+def permanent_domain_points():
+    """Both ends of the domain and every 'round' neighbourhood, judged by every P-line observable in EVERY run: 0..3, 2^k and
+    2^k +- 1 for the word-size k, the ten largest 64-bit primes and the primes around 2^32 / 2^63, squares of the top 32-bit primes,
+    every product of two primes next to 2^32 (and 2^16, 2^31), 10^k - 1, 10^k, 10^k + 1."""
+    pts = [0, 1, 2, 3, 4, (1 << 16) - 1, 1 << 16, (1 << 16) + 1, (1 << 31) - 1, 1 << 31, (1 << 31) + 1, (1 << 32) - 1, 1 << 32, (1 << 32) + 1,
+           (1 << 63) - 1, 1 << 63, (1 << 63) + 1, MAXU - 2, MAXU - 1, MAXU]
+    q = M64
+    for _ in range(10):
+        q = prev_prime(q)
+        pts.append(q)
+    for c in (1 << 16, 1 << 31, 1 << 32, 1 << 63):
+        lo1 = prev_prime(c); lo2 = prev_prime(lo1); hi1 = next_prime(c); hi2 = next_prime(hi1)
+        pts += [lo1, lo2, hi1, hi2]
+        if c <= (1 << 32):
+            near = [lo2, lo1, hi1, hi2]
+            for i, a in enumerate(near):
+                for b in near[i:]:
+                    if a * b < M64:
+                        pts.append(a * b)                      # squares of the top primes and all p * q next to 2^16 / 2^31 / 2^32
+    for k in range(1, 20):
+        for v in (10 ** k - 1, 10 ** k, 10 ** k + 1):
+            if v < M64:
+                pts.append(v)
+    pts.append(9999999999999999999 // 9 * 9)                   # 9999999999999999999 = 10^19 - 1
+    return sorted(set(pts))
+
+
 def prime_powers_below_2_64():
     """p^k < 2^64 for every k >= 1 (k up to 63 for p = 2): primes inside the trial-division table, at its end (523, 541), just
     beyond it (547, 557: Pollard's rho must split a prime power), and at 2^16, 2^21, 2^32."""
@@ -360,6 +410,10 @@ def gen_adversarial(rng, tier):
         r3.append(rng.choice(small[:40]) * rng.choice(small[:40]) * rng.choice(small[:40]) * rng.choice(small[:40]))
     adv["rough_3plus_factors"] = sorted(set(r3))
     adv["is_perfect_square_false_positives"] = list(SQUARE_FALSE_POSITIVES)
+    adv["domain_points"] = permanent_domain_points()
+    adv["carmichael_chernick_fixed"] = list(CHERNICK_FIXED)
+    adv["first_rho_divisor_composite"] = list(FIRST_RHO_COMPOSITE) + list(RHO_COMPOSITE_TWICE)
+    adv["prime_power_times_q"] = list(PRIME_POWER_TIMES_Q)
     adv["spsp2_large_fixed"] = list(SPSP2_LARGE)
     adv["slpsp_large_fixed"] = list(SLPSP_LARGE)
     adv["selfridge_D_classes"] = [v for pair in SELFRIDGE_D_CASES.values() for v in pair if v is not None]
@@ -498,13 +552,68 @@ def gen_mod_cases(rng, tier):
     return res
 
 
+def fixed_misc_cases():
+    """Permanent directed inputs for gcd, decompose, jacobi_symbol and miller_rabin(a, n) — judged in EVERY run."""
+    out = []
+    fib = [1, 2]
+    while fib[-1] + fib[-2] < M64:
+        fib.append(fib[-1] + fib[-2])
+    big = [0, 1, 2, 3, (1 << 32) - 1, 1 << 32, (1 << 32) + 1, (1 << 63) - 1, 1 << 63, (1 << 63) + 1, MAXU - 58, MAXU - 1, MAXU, fib[-1], fib[-2],
+           10 ** 19, 10 ** 19 - 1, 4294967291 * 4294967279, 6 ** 24, 3 ** 40]
+    # gcd: both operand orders, equal operands, zero on either side, worst case (consecutive Fibonacci), large common factor
+    for i, a in enumerate(big):
+        for b in big[i:]:
+            out += [("G", a, b), ("G", b, a)]
+    out += [("G", 4294967291 * 3, 4294967291 * 5), ("G", (1 << 62) * 3, (1 << 61) * 2), ("G", 3 ** 40, 3 ** 20 * 2 ** 30)]
+    # decompose: every power of two, 2^k * 3, 2^k * (odd near 2^(63-k)), odd numbers, both ends
+    for k in range(0, 64):
+        out.append(("D", 1 << k, 0))
+        if 3 << k < M64:
+            out.append(("D", 3 << k, 0))
+        out.append(("D", (((1 << (63 - k)) + 1) | 1) << k if k < 63 else 1 << 63, 0))
+    out += [("D", v, 0) for v in (1, 3, MAXU, MAXU - 1, MAXU - 58, (1 << 63) - 1, (1 << 63) + 1, 10 ** 19, 10 ** 19 - 1, fib[-1])]
+    # jacobi_symbol: n in every class mod 8, squares, top of the range; a zero, +-1, +-2, n-1, n, n+1, -n, multiples, int64 extremes,
+    # the Selfridge sequence 5, -7, 9, -11, ...
+    i63 = (1 << 63) - 1
+    ns = [1, 3, 5, 7, 9, 15, 17, 21, 25, 27, 33, 35, 39, 45, 49, 561, 65535, 65537, (1 << 32) - 1, (1 << 32) + 1, 4294967291, 4294967311,
+          (1 << 63) - 1, (1 << 63) + 1, (1 << 63) - 25, (1 << 63) + 29, MAXU, MAXU - 2, MAXU - 58, MAXU - 82, 4294967291 ** 2, 10 ** 19 - 1, 10 ** 19 + 1,
+          3 ** 40, 10785637507345693793]
+    seq, dv = [], 5
+    for _ in range(16):
+        seq.append(dv)
+        dv = -dv - 2 if dv > 0 else -dv + 2
+    for n in ns:
+        avals = [0, 1, -1, 2, -2, 3, -3, 4, 8, -8, i63, -i63, i63 - 1, 1 << 62, -(1 << 62), 6, 10, 12] + seq
+        for dl in (-1, 0, 1):
+            for sgn in (1, -1):
+                v = sgn * (n + dl)
+                if -i63 <= v <= i63:
+                    avals.append(v)
+        if n * 2 <= i63:
+            avals += [2 * n, -2 * n, 2 * n + 1]
+        for a in avals:
+            out.append(("J", a, n))
+    # miller_rabin(a, n): the precondition boundary n = a + 1 / a + 2 / a + 3, bases 0, 1, 2, n - 2, n - 3, even n, pseudoprimes, top primes
+    for n in (3, 4, 5, 7, 9, 15, 25, 49, 561, 2047, 3277, 1373653, 25326001, 3215031751, 4294967291, 4294967297, 3825123056546413051,
+              (1 << 63) - 25, (1 << 63) + 29, (1 << 63) + 1, MAXU - 58, MAXU - 82, MAXU, MAXU - 1, 1 << 63, 10 ** 19 - 1, 10785637507345693793,
+              4294967291 ** 2, SPSP2_LARGE[0], SLPSP_LARGE[0], CHERNICK_FIXED[-1]):
+        for a in (0, 1, 2, 3, 5, 7, 61, 325, 9375, n - 3, n - 2, n - 1, n, n + 1, (1 << 32) + 1, (1 << 63) + 1):
+            if 0 <= a < M64 - 2:
+                out.append(("R", a, n))
+    return out
+
+
 def fixed_mod_cases():
     """Directed cases judged in EVERY run: every guard of mod.hh at, just below and just above its boundary, for the moduli
     1, 2, 3, 2^32 +- 1, 2^63 - 1, 2^63, 2^63 + 1, 2^64 - 2, 2^64 - 1; deep mul_mod recursion (consecutive Fibonacci numbers: the
     recursion goes several levels deep with chunk sizes 1 and 2); chunk_result = n - 0 (a | n); a * b = 2^64 - 1, 2^64, 2^64 + 1 exactly."""
     out = []
     mods = [1, 2, 3, 4, 5, 255, 256, 257, (1 << 32) - 1, 1 << 32, (1 << 32) + 1, (1 << 63) - 1, 1 << 63, (1 << 63) + 1, MAXU - 1, MAXU,
-            12200160415121876738, 7540113804746346429, (1 << 64) - (1 << 32), 18446744073709551557]
+            12200160415121876738, 7540113804746346429, (1 << 64) - (1 << 32), 18446744073709551557,
+            # more modulus classes: 2^k, 2^k +- 1 at other k, even and odd moduli above 2^63, decimal round numbers, top primes / squares
+            (1 << 16) - 1, 1 << 16, (1 << 16) + 1, (1 << 48) - 1, 1 << 48, (1 << 48) + 1, (1 << 62) - 1, 1 << 62, (1 << 62) + 1, 3 << 62, (3 << 62) + 1,
+            (1 << 63) + (1 << 62) - 1, 10 ** 19, 10 ** 19 - 1, 10 ** 19 + 1, 999999999, 10 ** 9, 4294967291, 4294967291 ** 2, 4294967291 * 4294967279,
+            9223372036854775783, 18446744073709551533]
     for n in mods:
         ops = sorted({v for v in (0, 1, 2, n // 2 - 1, n // 2, n // 2 + 1, n - 3, n - 2, n - 1) if 0 <= v < n})
         for a in ops:
@@ -759,22 +868,23 @@ int main() {
             printf("n=%llu prime_bad=%llu first=%llu primes=%llu fn=%llu factor_bad=%llu ffirst=%llu fgot=%llu nontrivial_factor=%llu ub=%ld\n",
                    n, bad, first, primes, fn, fbad, ffirst, fgot, rho, g_ub - u0);
         } else if (!strcmp(cmd, "ROUGH")) {
-            // ROUGH lo hi k : every multiset of k (3 or 4) primes p1 <= ... <= pk in [lo, hi): find_prime_factor(p1*...*pk) must be one of them
+            // ROUGH lo hi k : every multiset of k (3, 4 or 5) primes p1 <= ... <= pk in [lo, hi): find_prime_factor(p1*...*pk) must be one of them
             // (numbers with three or more prime factors beyond the trial-division table are where Pollard's rho can return a COMPOSITE divisor)
             ull i0 = 0, i1 = ~0ull;      // optional: range of the index of the smallest prime (to shard a window over requests)
-            if (sscanf(line, "%*s %llu %llu %llu %llu %llu", &a, &b, &c, &i0, &i1) < 3 || b <= a || c < 3 || c > 4) { puts("bad"); continue; }
+            if (sscanf(line, "%*s %llu %llu %llu %llu %llu", &a, &b, &c, &i0, &i1) < 3 || b <= a || c < 3 || c > 5) { puts("bad"); continue; }
             std::vector<uint64_t> ps;
             for (uint64_t x = a | 1; x < b; x += 2) { bool pr = x > 2; for (uint64_t q = 3; q * q <= x && pr; q += 2) if (x % q == 0) pr = false; if (pr) ps.push_back(x); }
             ull n = 0, bad = 0, first = 0, fgot = 0, skipped = 0; long u0 = g_ub;
             g_what = "ROUGH";
             size_t m = ps.size();
             for (size_t i = (size_t)i0; i < m && i < i1; ++i) for (size_t j = i; j < m; ++j) for (size_t k = j; k < m; ++k)
-                for (size_t l = (c == 4 ? k : m - 1); l < m; ++l) {
+                for (size_t l = (c >= 4 ? k : m - 1); l < m; ++l) for (size_t o = (c == 5 ? l : m - 1); o < m; ++o) {
                     u128 prod = (u128)ps[i] * ps[j] * ps[k]; if (prod >> 64) { ++skipped; continue; }
-                    if (c == 4) { prod *= ps[l]; if (prod >> 64) { ++skipped; continue; } }
+                    if (c >= 4) { prod *= ps[l]; if (prod >> 64) { ++skipped; continue; } }
+                    if (c == 5) { prod *= ps[o]; if (prod >> 64) { ++skipped; continue; } }
                     uint64_t x = (uint64_t)prod; g_cur = x;
                     uint64_t f = d::find_prime_factor(x); ++n;
-                    bool ok = f == ps[i] || f == ps[j] || f == ps[k] || (c == 4 && f == ps[l]);
+                    bool ok = f == ps[i] || f == ps[j] || f == ps[k] || (c >= 4 && f == ps[l]) || (c == 5 && f == ps[o]);
                     if (!ok) { if (!bad++) { first = x; fgot = f; } }
                 }
             printf("n=%llu factor_bad=%llu ffirst=%llu fgot=%llu primes=%llu skipped=%llu ub=%ld\n", n, bad, first, fgot, (ull)m, skipped, g_ub - u0);
@@ -1113,7 +1223,11 @@ def gen_mag_cases(rng, tier):
               (547 ** 3, 547 ** 3), (547 * 557, 563), (547, 557 * 563 * 569), (547 * 557, 563 * 569), (2, prev_prime(1 << 63)),
               (3, prev_prime(MAXU // 3)), (541, prev_prime(MAXU // 541)), (547, prev_prime(MAXU // 547)), (523 * 541, 547 * 557),
               (10785637507345693793, 1), (65537 ** 2, 65537), (2097143, 2097143 ** 2), (1 << 32, (1 << 32) - 5), (5 ** 13, 5 ** 14),
-              (6 ** 12, 6 ** 12), (10 ** 9, 10 ** 10)]
+              (6 ** 12, 6 ** 12), (10 ** 9, 10 ** 10),
+              # 9999..., a prime fourth power beyond the table, inputs whose first rho divisor is composite (3, 4, 5 rough factors and
+              # 'composite twice'), p^k * q with p > 541
+              (10 ** 9 - 1, 10 ** 9 + 1), (99999, 100001), (65521 ** 2, 65521 ** 2), (217524943, 1), (208489597, 1),
+              (139839906181, 1), (103755698477471, 1), (1522159653893243, 1), (547 ** 2, 563), (557 ** 3, 65539), (1009 ** 4, 1000003)]
     k += len(cases) - 13
     while len(cases) < k + 13:
         def one():
@@ -1312,6 +1426,11 @@ def explore(tier, seed, rng, wd, violations):
     n4 = sum(1 for q in range(543, hi4, 2) if all(q % d for d in range(3, int(q ** 0.5) + 1, 2)))
     step = 2 if tier == "quick" else 1
     rough4 = [f"ROUGH 542 {hi4} 4 {i} {min(i + step, n4)}" for i in range(0, n4, step)]
+    # every product of FIVE primes from a window just beyond the table, sharded by the smallest prime
+    hi5 = 660 if tier == "quick" else 800
+    n5 = sum(1 for q in range(543, hi5, 2) if all(q % d for d in range(3, int(q ** 0.5) + 1, 2)))
+    rough5 = [f"ROUGH 542 {hi5} 5 {i} {min(i + 2, n5)}" for i in range(0, n5, 2)]
+    rough_lines += rough5
     rough_total = {"n": 0, "factor_bad": 0}
     for ci, (exe, cfg, wc) in enumerate(exes):
         lines = rough_lines + rough4 if ci == 0 else rough_lines[:3] + rng.sample(rough4, 4)
@@ -1438,6 +1557,7 @@ def explore(tier, seed, rng, wd, violations):
     for n in range(1, 200, 2):
         for a in (-7, -3, -1, 2, 3, 5, 9, -11, 13):
             misc.append(("J", a, n))
+    misc += fixed_misc_cases()
     misc = list(dict.fromkeys(misc))
     mnames = {"G": "gcd", "D": "decompose", "J": "jacobi", "R": "mr"}
     m_lines = [f"{k} {x} {y}" if k != "D" else f"D {x}" for (k, x, y) in misc]
